@@ -283,6 +283,10 @@ wait:
 	if pan != "" {
 		return "PANIC " + pan
 	}
+	if hbms > 0 && strings.HasPrefix(ret, "k") && time.Since(start) > timer/2 {
+		// the return was observed too late to tell a return after the j-th reply from the timer
+		return "SLOW"
+	}
 	term, leader := "?", "?"
 	if !strings.HasPrefix(ret, "HANG") {
 		term, leader = strconv.Itoa(c.fo.term), c17eName(c.fo.leader)
